@@ -586,8 +586,9 @@ def install(ctx):
             pe = "T" if ti["flag"] else "F"
             ctx.count(f"recovery-distance:{fam}:para_eq={pe}:{meta['kind']}:<=1e{int(math.ceil(math.log10(max(e, 1e-16))))}")
             M.num("exact-data:backtracking-recovers", e, tp, tf,
-                  key=f"LossMinimizationEstimator:pgdb:{fam}:para_eq={pe}:exact-data-not-recovered-at-criterion-stop:{meta['kind']}:{mech}",
-                  info=dict(info, k=int(dr.k), fx_end=fx_end, smin=ti["smin"], last_alpha=last_alpha,
+                  # mechanism key: loss family + diagnosed mechanism (flag and kind of truth are in the witness info)
+                  key=f"LossMinimizationEstimator:pgdb:{fam}:exact-data-not-recovered-at-criterion-stop:{mech}",
+                  info=dict(info, para_eq=pe, truth_kind=meta['kind'], k=int(dr.k), fx_end=fx_end, smin=ti["smin"], last_alpha=last_alpha,
                             last_errors=[float(x) for x in dr.error_values[-3:]]))
             if fam == "squared-error" and getattr(loss_option, "mode_weight", None) == "identity":
                 # loss = |A (v - v_true)|^2 <= smax^2 dist^2 ; the truth has loss 0
@@ -936,8 +937,9 @@ def run_shard(ctx):
                         ctx.count(f"recorded:exception:opts={oc}:{type(res).__name__}@{ctx.exc_site(res)}")
                         continue
                     fam = "squared-error" if ln in ("se", "fse") else "relative-entropy"
-                    ctx.violation(f"LossMinimizationEstimator:{an}:{fam}:para_eq={'T' if flag else 'F'}:" + ctx.exc_key(res),
-                                  {"type": t, "loss": ln, "weights": wm, "data": M.meta_of(ds)["cls"], "purpose": purpose,
+                    # mechanism key: loss family + raising site (algorithm and flag are in the witness info)
+                    ctx.violation(f"LossMinimizationEstimator:{fam}:" + ctx.exc_key(res),
+                                  {"algorithm": an, "para_eq": bool(flag), "type": t, "loss": ln, "weights": wm, "data": M.meta_of(ds)["cls"], "purpose": purpose,
                                    "options": {k: v for k, v in kw.items() if k != "var_start"}, "msg": str(res)[:300]})
                     continue
                 register(f"lme:{an}:{ln}:{wm}:{purpose}:{kw.get('mode_proj_order')}:{kw.get('on_algo_eq_constraint', True)}:"
